@@ -524,6 +524,25 @@ fn run(case: &Case) -> Result<Outcome, V> {
                 return Err(("strategy_generated_orders_while_trading_disabled", format!("event #{idx}: algo output in audit while disabled")));
             }
         }
+        // every request of the strategy batch consumed by this event is accounted for in the audit:
+        // refused ones as refused, the others as sent or failed (unless the documented drop of the
+        // AlgoOrders output on a fatal delivery error applies)
+        if algo_calls == 1 {
+            if let Some(batch) = &pending_batch {
+                let dropped = claims.audit_errors > 0 && !claims.algo_output_present;
+                for r in batch {
+                    out.checks += 1;
+                    let refused_by_script = cid_is_refused(&ClientOrderId::new(r.cid.as_str()));
+                    if refused_by_script {
+                        if !dropped && !claims.refused.contains(r) {
+                            return Err(("refused_request_not_reported_as_refused", format!("event #{idx} {ev:?}: {r:?} was refused by the risk manager but the audit reports refused={:?}", claims.refused)));
+                        }
+                    } else if !dropped && !claims.sent.contains(r) && !claims.errors.iter().any(|(x, _)| x == r) {
+                        return Err(("approved_request_neither_sent_nor_failed_in_audit", format!("event #{idx} {ev:?}: {r:?}")));
+                    }
+                }
+            }
+        }
         if let Ev::Trading(on) = ev {
             if *on && trading_before == TradingState::Disabled {
                 out.cells.insert("reenable_generates_on_that_event".into());
